@@ -191,4 +191,210 @@ theorem replaceArgs_tokens (ts : List Tok) (start : Nat) (hs : 1 ≤ start) (hwf
   simp only [Int.natCast_zero, Int.add_zero] at h
   rw [h, Option.map_some, ← finalString_toList, String.ofList_toList]
 
+/-! ### `render` produces well-formed token text -/
+
+/-- appending well-formed text keeps it well-formed -/
+def WFR (ts : List Tok) : Prop := ∀ rest, wfToks rest = true → wfToks (ts ++ rest) = true
+
+/-- whatever follows, the text does not begin with a digit -/
+def ND (ts : List Tok) : Prop := ∀ rest, startsDigit (toksChars (ts ++ rest)) = false
+
+theorem wfr_nil : WFR [] := fun _ h => h
+
+theorem wfr_append {a b : List Tok} (ha : WFR a) (hb : WFR b) : WFR (a ++ b) := by
+  intro rest h
+  rw [List.append_assoc]
+  exact ha _ (hb _ h)
+
+theorem wfr_text_cons (s : String) (ts : List Tok) (h : s.toList.contains '$' = false) (hw : WFR ts) :
+    WFR (.text s :: ts) := by
+  intro rest hr
+  simp only [List.cons_append, wfToks, h, Bool.not_false, Bool.true_and]
+  exact hw rest hr
+
+theorem wfr_text (s : String) (h : s.toList.contains '$' = false) : WFR [.text s] :=
+  wfr_text_cons s [] h wfr_nil
+
+theorem wfr_ph (numbered : Bool) (i : Nat) (ts : List Tok) (hnd : ND ts) (hw : WFR ts) :
+    WFR (phOf numbered i :: ts) := by
+  intro rest hr
+  cases numbered
+  · simp only [phOf, List.cons_append]
+    exact hw rest hr
+  · simp only [phOf, List.cons_append, wfToks, if_true, hnd rest, Bool.not_false, Bool.true_and]
+    exact hw rest hr
+
+theorem nd_text (s : String) (ts : List Tok) (h : startsDigit s.toList = false) (hne : s.toList ≠ []) :
+    ND (.text s :: ts) := by
+  intro rest
+  simp only [List.cons_append, toksChars_cons, Tok.chars]
+  cases hs : s.toList with
+  | nil => exact absurd hs hne
+  | cons c cs =>
+    rw [hs] at h
+    simpa [startsDigit] using h
+
+theorem wfr_inl (numbered : Bool) (vs : List Nat) (tail : List Tok) (hw : WFR tail) :
+    WFR (((vs.map fun i => [phOf numbered i]).intersperse [.text ", "]).flatten ++ .text ")" :: tail) := by
+  induction vs with
+  | nil => simpa using wfr_text_cons ")" tail (by decide) hw
+  | cons a vs ih =>
+    cases vs with
+    | nil =>
+      simp only [List.map_cons, List.map_nil, List.intersperse_singleton, List.flatten_cons, List.flatten_nil,
+        List.append_nil, List.cons_append, List.nil_append]
+      exact wfr_ph numbered a _ (nd_text ")" tail (by decide) (by decide)) (wfr_text_cons ")" tail (by decide) hw)
+    | cons b vs =>
+      simp only [List.map_cons, List.intersperse_cons_cons, List.flatten_cons, List.cons_append,
+        List.nil_append] at ih ⊢
+      exact wfr_ph numbered a _ (nd_text ", " _ (by decide) (by decide)) (wfr_text_cons ", " _ (by decide) ih)
+
+theorem wfr_cond (numbered : Bool) (a : Nat) (c : Cond) (tail : List Tok) (hw : WFR tail) (hnd : ND tail) :
+    WFR (phOf numbered a :: (renderCond numbered c ++ tail)) := by
+  cases c with
+  | none => simpa [renderCond] using wfr_ph numbered a tail hnd hw
+  | op o v pfx =>
+    have h1 : (" AND value " ++ o.sql ++ " ").toList.contains '$' = false := by cases o <;> decide
+    have h2 : startsDigit (" AND value " ++ o.sql ++ " ").toList = false := by cases o <;> decide
+    have h3 : (" AND value " ++ o.sql ++ " ").toList ≠ [] := by cases o <;> decide
+    cases pfx with
+    | none =>
+      simp only [renderCond, List.cons_append, List.nil_append, List.append_nil]
+      exact wfr_ph numbered a _ (nd_text _ _ h2 h3) (wfr_text_cons _ _ h1 (wfr_ph numbered v tail hnd hw))
+    | some pk =>
+      obtain ⟨po, k⟩ := pk
+      have g1 : (" AND SUBSTR(value, 1, 12) " ++ po.sql ++ " ").toList.contains '$' = false := by cases po <;> decide
+      have g2 : startsDigit (" AND SUBSTR(value, 1, 12) " ++ po.sql ++ " ").toList = false := by cases po <;> decide
+      have g3 : (" AND SUBSTR(value, 1, 12) " ++ po.sql ++ " ").toList ≠ [] := by cases po <;> decide
+      simp only [renderCond, List.cons_append, List.nil_append]
+      exact wfr_ph numbered a _ (nd_text _ _ h2 h3) (wfr_text_cons _ _ h1
+        (wfr_ph numbered v _ (nd_text _ _ g2 g3) (wfr_text_cons _ _ g1 (wfr_ph numbered k tail hnd hw))))
+  | inl vs =>
+    simp only [renderCond, List.cons_append, List.nil_append, List.append_assoc]
+    exact wfr_ph numbered a _ (nd_text _ _ (by decide) (by decide))
+      (wfr_text_cons _ _ (by decide) (wfr_inl numbered vs tail hw))
+
+theorem wfr_renderList (op : ConjOp) (cs : List Clause) (ih : ∀ c ∈ cs, WFR (render c)) :
+    WFR (renderList op cs) := by
+  induction cs with
+  | nil => simpa [renderList] using wfr_nil
+  | cons c cs ihcs =>
+    simp only [renderList]
+    refine wfr_append (wfr_append (ih c (by simp)) ?_) (ihcs fun c' hc' => ih c' (by simp [hc']))
+    split
+    · exact wfr_nil
+    · exact wfr_text _ (by cases op <;> decide)
+
+theorem render_wfr (c : Clause) : WFR (render c) := by
+  induction c using Clause.induct' with
+  | sub neg a cnd p numbered =>
+    simp only [render, List.cons_append, List.nil_append]
+    have htail : (" AND plaintext = " ++ (if p = true then "1" else "0") ++ ")").toList.contains '$' = false := by
+      cases p <;> decide
+    have htail2 : startsDigit (" AND plaintext = " ++ (if p = true then "1" else "0") ++ ")").toList = false := by
+      cases p <;> decide
+    have htail3 : (" AND plaintext = " ++ (if p = true then "1" else "0") ++ ")").toList ≠ [] := by
+      cases p <;> decide
+    refine wfr_text_cons _ _ (by cases neg <;> decide) ?_
+    exact wfr_cond numbered a cnd _ (wfr_text _ htail) (nd_text _ _ htail2 htail3)
+  | conj op cs ih =>
+    simp only [render]
+    refine wfr_append (wfr_append ?_ (wfr_renderList op cs ih)) ?_
+    · split
+      · exact wfr_text _ (by decide)
+      · exact wfr_nil
+    · split
+      · exact wfr_text _ (by decide)
+      · exact wfr_nil
+  | zero => exact wfr_text _ (by decide)
+
+theorem render_wellformed (c : Clause) : wfToks (render c) = true := by
+  have := render_wfr c [] rfl
+  simpa using this
+
+/-! ### end to end: the text the real code sends to SQLite for an encoded filter -/
+
+theorem phs_length (start k : Nat) (ts : List Tok) : (phs (replaceToks start k ts)).length = phCount ts := by
+  induction ts generalizing k with
+  | nil => simp [replaceToks, phs, phCount]
+  | cons t ts ih =>
+    cases t with
+    | text s => simpa [replaceToks, phs, phCount] using ih k
+    | ph p =>
+      cases p with
+      | num n => simpa [replaceToks, phs, phCount] using ih (k + 1)
+      | dd => simpa [replaceToks, phs, phCount] using ih (k + 1)
+
+theorem mem_num_phs (start k : Nat) (ts : List Tok) (n : Nat) (h : Tok.ph (.num n) ∈ ts) :
+    (n + start - 1) ∈ phs (replaceToks start k ts) := by
+  induction ts generalizing k with
+  | nil => cases h
+  | cons t ts ih =>
+    cases h with
+    | head => simp [replaceToks, phs]
+    | tail _ h =>
+      cases t with
+      | text s => simpa [replaceToks, phs] using ih k h
+      | ph p =>
+        cases p with
+        | num m =>
+          have := ih (k + 1) h
+          simp only [replaceToks, phs, List.filterMap_cons, List.mem_cons] at this ⊢
+          exact Or.inr this
+        | dd =>
+          have := ih (k + 1) h
+          simp only [replaceToks, phs, List.filterMap_cons, List.mem_cons] at this ⊢
+          exact Or.inr this
+
+theorem render_noOverflow (E : TagCrypto) (q : Query TagName) (c : Clause) (start : Nat) (hs : 1 ≤ start)
+    (h : (encodeQuery E q).1 = some c)
+    (hlen : (start : Int) + (encodeQuery E q).2.length ≤ i64Max) : NoOverflow start (render c) := by
+  obtain ⟨h1, h2⟩ := placeholders_numbered E q c start hs h
+  have h1' : phs (replaceToks start 0 (render c)) = c.argRefs.map (· + start) := h1
+  constructor
+  · intro n hn
+    have hm := mem_num_phs start 0 (render c) n hn
+    rw [h1', h2] at hm
+    simp only [List.mem_map, List.mem_range] at hm
+    obtain ⟨i, hi, he⟩ := hm
+    unfold i64Max at hlen ⊢
+    omega
+  · have hl := phs_length start 0 (render c)
+    rw [h1', h2] at hl
+    simp only [List.length_map, List.length_range] at hl
+    rw [← hl]
+    exact hlen
+
+theorem encode_text_exact (E : TagCrypto) (q : Query TagName) (c : Clause) (start : Nat) (hs : 1 ≤ start)
+    (h : (encodeQuery E q).1 = some c)
+    (hlen : (start : Int) + (encodeQuery E q).2.length ≤ i64Max) :
+    replaceArgsStr (toksString (render c)) start = some (finalString (replaceToks start 0 (render c))) :=
+  replaceArgs_tokens (render c) start hs (render_wellformed c) (render_noOverflow E q c start hs h hlen)
+
+/-! ### text without `$`; the LIMIT suffix -/
+
+theorem replaceArgs_no_dollar (s : List Char) (start : Int) (h : s.contains '$' = false) :
+    replaceArgs s start = some s := by
+  have := go_text start start s [] h
+  simpa [replaceArgs, replaceGo] using this
+
+theorem limitQuery_numbered (q : List Char) (nargs : Nat) (offset limit : Option Int)
+    (h : (offset.isSome || limit.isSome) = true) (hn : (nargs : Int) + 3 ≤ i64Max) :
+    limitQuery q nargs offset limit
+      = some (q ++ (" LIMIT ?" ++ toString (nargs + 1) ++ ", ?" ++ toString (nargs + 2)).toList, nargs + 2) := by
+  have hg := replaceGo_tokens (nargs + 1) (by omega) [.text " LIMIT ", .ph .dd, .text ", ", .ph .dd] 0 (by decide)
+    (by intro n hn; simp at hn) (by simp only [phCount]; unfold i64Max at hn ⊢; omega)
+  have ht : toksChars [.text " LIMIT ", .ph .dd, .text ", ", .ph .dd] = " LIMIT $$, $$".toList := by decide
+  rw [ht] at hg
+  simp only [Int.natCast_zero, Int.add_zero] at hg
+  simp only [limitQuery, h, if_true, replaceArgs]
+  have hc : ((nargs : Int) + 1) = ((nargs + 1 : Nat) : Int) := by simp
+  rw [hc, hg]
+  simp only [Option.map_some, replaceToks, finalChars, List.flatMap_cons, List.flatMap_nil, finalPiece,
+    String.toList_append, natChars, List.append_nil, Nat.add_zero]
+  have e1 : " LIMIT ?".toList = " LIMIT ".toList ++ ['?'] := by decide
+  have e2 : ", ?".toList = ", ".toList ++ ['?'] := by decide
+  rw [e1, e2]
+  simp [Nat.add_assoc]
+
 end Askar.Wql.Lemmas
